@@ -4,6 +4,7 @@ CONSTANTS
   Routes = {"interp", "java"}
   Progs = {"p1", "p2"}
   Digests = {7, 8}
+  Builds = {"ok", "compile", "javac", "timeout"}
 INVARIANTS TypeOK Sound NoFalseAlarm Statement RoutesAgree
 PROPERTIES WantStable ObsStable
 CHECK_DEADLOCK FALSE
